@@ -10,6 +10,7 @@ use cglue::trait_group;
 mod defs;
 mod lt;
 mod pod;
+mod zst;
 
 use cglue::arc::CArc;
 use cglue::boxed::{CBox, CSliceBox};
@@ -699,6 +700,19 @@ fn pod_case(kind: usize, path: usize) -> Option<CaseOut> {
     }
 }
 
+/// one (kind, path) cell of the zero-sized-payload section, inside its own allocation window
+fn zst_case(kind: usize, path: usize) -> Option<CaseOut> {
+    alloc::begin();
+    let r = std::panic::catch_unwind(|| zst::run(kind, path));
+    let rep = alloc::end();
+    match r {
+        Err(_) => Some(CaseOut::bad("panic", "panicked".to_string())),
+        Ok(None) => None,
+        Ok(Some(Err((s, d)))) => Some(CaseOut::bad(s, d)),
+        Ok(Some(Ok(o))) => Some(if rep.clean() { CaseOut::ok(o) } else { CaseOut::bad(format!("alloc:{}:zst_payload", rep.signature()), format!("{} / {}: {}", zst::KINDS[kind], zst::PATHS[path], rep.describe())) }),
+    }
+}
+
 /// one operation sequence of the lifetime-bounded-children section, inside its own allocation window
 fn lt_case(ops: &[u8]) -> CaseOut {
     alloc::begin();
@@ -911,6 +925,9 @@ fn main() {
             if case.get("pod_kind").is_some() {
                 return pod_case(case["pod_kind"].as_u64().unwrap() as usize, case["pod_path"].as_u64().unwrap() as usize).unwrap_or(CaseOut::ok(0));
             }
+            if case.get("zst_kind").is_some() {
+                return zst_case(case["zst_kind"].as_u64().unwrap() as usize, case["zst_path"].as_u64().unwrap() as usize).unwrap_or(CaseOut::ok(0));
+            }
             if case.get("lt_ops").is_some() {
                 let ops: Vec<u8> = serde_json::from_value(case["lt_ops"].clone()).unwrap();
                 return lt_case(&ops);
@@ -977,6 +994,23 @@ fn main() {
                         let case = json!({"pod_kind": k, "pod_path": p, "kind": pod::KINDS[k], "path": pod::PATHS[p]});
                         if let Some(out) = pod_case(k, p) {
                             cx.record("plain_payloads", || case, &out);
+                        }
+                    }
+                }
+            }),
+            replay: mk_replay(),
+        });
+    }
+    if !c07 {
+        sections.push(Section {
+            name: "zst_payload_objects",
+            explore: Box::new(|cx: &Cx| {
+                cx.rule("zst_payload_objects", "objects and groups (with / without a CArc context) over a zero-sized payload that has a destructor x every path {drop, call + drop, by-value method returning a value / Result Ok / Result Err, cast + drop, cast + by-value method, cast + upcast + by-value method, into! + by-value method}: the payload is destroyed exactly once, not before the object is gone; context released; allocator balanced");
+                for k in 0..zst::KINDS.len() {
+                    for p in 0..zst::PATHS.len() {
+                        let case = json!({"zst_kind": k, "zst_path": p, "kind": zst::KINDS[k], "path": zst::PATHS[p]});
+                        if let Some(out) = zst_case(k, p) {
+                            cx.record("zst_payload_objects", || case, &out);
                         }
                     }
                 }
